@@ -452,9 +452,12 @@ def floors(agg, tier):
     shapes = [k for k in c if k.startswith('shape_')]
     if len(shapes) < 6:
         out.append('only %d VTIMEZONE shapes: %r' % (len(shapes), shapes))
-    for k in ('_tzicalvtz.utcoffset', '_tzicalvtz.tzname', '_tzicalvtz.dst', '_tzinfo.fromutc'):
+    for k in ('_tzicalvtz.utcoffset', '_tzicalvtz.tzname', '_tzicalvtz.dst'):
         if h.get(k, 0) < 5000:
             out.append('monitored %s reached only %d times' % (k, h.get(k, 0)))
+    # the conversion from UTC is the zone class's own method or the generic one it inherits
+    if h.get('_tzicalvtz.fromutc', 0) + h.get('_tzinfo.fromutc', 0) < 5000:
+        out.append('monitored fromutc of iCalendar zones reached only %d times' % (h.get('_tzicalvtz.fromutc', 0) + h.get('_tzinfo.fromutc', 0)))
     return out
 
 
